@@ -215,13 +215,25 @@ class FilReader(Filterbank):
                 f"read_plan: Reading block {ii}/{nreads}, {block} elements, "
                 f"with skipback={skip}",
             )
-            nbytes = self._file.creadinto(read_buffer, unpack_buffer)
             expected_nbytes = int(block * self.chan_stride)
+            # Only read (and unpack) the bytes of this block, it can be shorter
+            # than the buffer for the last block.
+            nbytes = self._file.creadinto(
+                memoryview(read_buffer)[:expected_nbytes],
+                None if unpack_buffer is None else memoryview(unpack_buffer)[:block],
+            )
             if nbytes != expected_nbytes:
                 msg = (
                     f"Unexpected number of bytes read from file {nbytes} (actual) "
                     f"!= {expected_nbytes} (expected)"
                 )
+                raise ValueError(msg)
+            if (
+                ii == len(blocks) - 1
+                and start + nsamps == self.header.nsamples
+                and not self._file.eos()
+            ):
+                msg = "Unexpected trailing bytes after the last sample in file"
                 raise ValueError(msg)
             if skip != 0:
                 self._file.seek(int(skip * self.chan_stride), whence=1)
